@@ -458,7 +458,7 @@ func init() {
 		Level:       "other",
 		Explanation: "Structural necessary conditions: stop-before-start (dominance), stopExecution's cancel / drain-until-closed / clear / Idle shape, the executor goroutine's completion report, the shutdown override being the last store to PreferBeingIdle before Synchronize, idle-after-failure, the Idle desired state handling, the termination test's decision table and the thread loop's only exit. Interleavings of the executor goroutine with the bounded channel and timing are not decided.",
 		Assumptions: []string{"the scheduler client returns what the scheduler sent"},
-		Rules:       []RuleFunc{c08StopStart, c08Shutdown, c08Deadline, c08CompletedSend, c08DeadlineInit, c08EveryUpdateApplied, c08UpdatesFromCallingGoroutine},
+		Rules:       []RuleFunc{c08StopStart, c08Shutdown, c08Deadline, c08CompletedSend, c08DeadlineInit, c08EveryUpdateApplied, c08UpdatesFromCallingGoroutine, c08MayThinkExecuting},
 	})
 	_ = fmt.Sprint
 }
